@@ -46,6 +46,7 @@ def _fixtures():
         def __init__(self, id, model, log, priority=0):
             super().__init__(id, model, priority=priority)
             self.log = log
+            self.intended_priority = priority
 
         def execute(self):
             self.log.append(self.id)
@@ -59,6 +60,7 @@ def _fixtures():
             else:
                 super().__init__(id, model, priority=priority)
             self.log = log
+            self.intended_priority = -1 if priority is None else priority      # documented collector default: -1
 
         def collect(self):
             self.log.append(self.id)
@@ -79,7 +81,7 @@ def _fixtures():
                     d.ref.remove(d.registered(obj.id))
                 if kind in ('add', 'readd') and d.registered(obj.id) is None:
                     self.model.systems.add_system(obj)
-                    d.ref.append({'id': obj.id, 'obj': obj, 'prio': obj.priority, 'seq': d.seq})
+                    d.ref.append({'id': obj.id, 'obj': obj, 'prio': d.intended(obj), 'seq': d.seq})
                     d.seq += 1
 
     return core, LogSystem, LogCollector, Mutator
@@ -100,6 +102,10 @@ class Driver:
         self.pending = []
         self.model.systems.add_system(Mutator(self.model, self))     # always first, never logged
 
+    def intended(self, obj):
+        """The priority the harness asked for (constructor argument or later assignment) - not what the object reports back."""
+        return getattr(obj, 'intended_priority')
+
     def expected_order(self):
         return [r['id'] for r in sorted(self.ref, key=lambda r: (-r['prio'], r['seq']))]
 
@@ -115,7 +121,7 @@ class Driver:
             self.probe()
             return False
         self.model.systems.add_system(obj)
-        self.ref.append({'id': obj.id, 'obj': obj, 'prio': obj.priority, 'seq': self.seq})
+        self.ref.append({'id': obj.id, 'obj': obj, 'prio': self.intended(obj), 'seq': self.seq})
         self.seq += 1
         self.trace.append('A')
         self.lookups()
@@ -210,7 +216,7 @@ def case_history(ctx, case):
             o = objs[n]
             if n in ever_removed:
                 if rng.random() < 0.4:
-                    o.priority = rng.choice(pool)       # changed while unregistered: the new value counts
+                    o.priority = o.intended_priority = rng.choice(pool)       # changed while unregistered: the new value counts
                 if rng.random() < 0.2:                  # a different object under the old id
                     o = objs[n] = d.LogSystem(n, d.model, d.log, priority=rng.choice(pool))
                 rereg += 1
